@@ -118,8 +118,14 @@ def parse_duration(s):
 
 def parse_date(s):
     # return seconds-since-epoch for the UTC midnight that starts the given
-    # day
-    return int(iso_utc_time_to_seconds(s + "T00:00:00"))
+    # day.  Only a complete, existing calendar date "YYYY-MM-DD" is accepted:
+    # a trailing time-of-day or an impossible day such as 2009-02-31 is an
+    # error, not some other moment.
+    m = re.fullmatch(r"(\d{4})-(\d{2})-(\d{2})", s)
+    if not m:
+        raise ValueError(s, "not a date of the form YYYY-MM-DD")
+    day = datetime.date(int(m.group(1)), int(m.group(2)), int(m.group(3)))
+    return calendar.timegm(day.timetuple())
 
 def format_delta(time_1, time_2):
     if time_1 is None:
